@@ -885,6 +885,10 @@ impl Transformer {
 
         let indent = 2;
         let mut tb = ThemeBuilder::new(&self.context, &element_set, &class_set);
+        if let Some(root_id) = root.get_attr("id") {
+            // local styles are scoped to the root element's id: the author's, if given
+            tb.scope_local_styles_to(&root_id);
+        }
         tb.build();
         let auto_defs = tb.get_defs();
         let auto_styles = tb.get_styles();
